@@ -560,6 +560,62 @@ func passSched(p *packages.Package, file *ast.File, f *fileRW, dense bool) {
 
 // ---------------------------------------------------------------- gyield pass
 
+// writesPkgVar reports whether the statement assigns to (or takes the address
+// of) a package-level variable.
+func writesPkgVar(info *types.Info, n ast.Node) bool {
+	isPkgVar := func(e ast.Expr) bool {
+		for {
+			switch x := e.(type) {
+			case *ast.ParenExpr:
+				e = x.X
+				continue
+			case *ast.SelectorExpr:
+				if v, ok := info.Uses[x.Sel].(*types.Var); ok && !v.IsField() && v.Pkg() != nil && v.Parent() == v.Pkg().Scope() {
+					return true
+				}
+				e = x.X
+				continue
+			case *ast.IndexExpr:
+				e = x.X
+				continue
+			case *ast.StarExpr:
+				e = x.X
+				continue
+			case *ast.Ident:
+				v, ok := info.Uses[x].(*types.Var)
+				return ok && !v.IsField() && v.Pkg() != nil && v.Parent() == v.Pkg().Scope()
+			}
+			return false
+		}
+	}
+	found := false
+	ast.Inspect(n, func(x ast.Node) bool {
+		if found {
+			return false
+		}
+		switch x := x.(type) {
+		case *ast.FuncLit, *ast.BlockStmt:
+			return false
+		case *ast.AssignStmt:
+			for _, l := range x.Lhs {
+				if isPkgVar(l) {
+					found = true
+				}
+			}
+		case *ast.IncDecStmt:
+			if isPkgVar(x.X) {
+				found = true
+			}
+		case *ast.UnaryExpr:
+			if x.Op == token.AND && isPkgVar(x.X) {
+				found = true
+			}
+		}
+		return true
+	})
+	return found
+}
+
 // usesPkgVar reports whether the statement's own expressions (not nested
 // blocks or function literals) mention a package-level variable.
 func usesPkgVar(info *types.Info, n ast.Node) bool {
@@ -624,13 +680,19 @@ func passGYield(p *packages.Package, file *ast.File, f *fileRW) {
 			default:
 				hdr = append(hdr, inner)
 			}
-			hit := false
+			hit, wr := false, false
 			for _, h := range hdr {
 				if usesPkgVar(info, h) {
 					hit = true
 				}
+				if writesPkgVar(info, h) {
+					wr = true
+				}
 			}
-			if hit {
+			if wr {
+				id := newSite(p, "global_write", st.Pos(), fn)
+				f.ins(st.Pos(), fmt.Sprintf("verifsim.YieldW(%d)\n", id))
+			} else if hit {
 				id := newSite(p, "global_access", st.Pos(), fn)
 				f.ins(st.Pos(), fmt.Sprintf("verifsim.YieldG(%d)\n", id))
 			}
